@@ -454,6 +454,36 @@ def gen_x86_64_xen(rng, force=None):
         for i in range(n):
             tb.map(ft + i * 0x1000, rand_ram_page(), 1)
         img.regions.append(("frametable", ft, ft + n * 0x1000 - 1, False))
+    if variant == "3.2":
+        # Xen 3.2-3.4: 16 GiB ioremap()/fixmap area at 0xffff828800000000, mapped piecewise (MMIO BARs, ACPI tables, fixmap slots) with
+        # 4K pages and 2M superpages, every piece with its own virt-to-phys offset.  The text mapping of a 4.0 development snapshot
+        # later took the address 2 GiB into this area.
+        IOREMAP = 0xffff828800000000
+        io = f.get("ioremap", pick(rng, [None, "any", "any", "at-4.0dev", "at-4.0dev"]))
+        d["ioremap"] = io
+        if io is not None:
+            gbs = [rng.randrange(0, 16), rng.randrange(0, 16)] + ([2] if io == "at-4.0dev" else [])
+            for gi, g in enumerate(dict.fromkeys(gbs)):
+                base = IOREMAP + g * GB
+                mmio = 0xc0000000 + rng.randrange(0, 256) * 2 * MB
+                cur = 0
+                if (io == "at-4.0dev" and g == 2) or rng.random() < 0.5:
+                    nbig = rng.randrange(1, 4)
+                    for i in range(nbig):
+                        tb.map(base + i * 2 * MB, mmio + i * 2 * MB, 2)
+                    img.regions.append(("ioremap-2m", base, base + nbig * 2 * MB - 1, False))
+                    cur = nbig * 2 * MB
+                for j in range(rng.randrange(1, 4)):
+                    cur += pick(rng, [0x1000, 2 * MB, 0x5000, 64 * MB]) + (2 * MB if j == 0 else 0)
+                    cur = (cur + 0xfff) & ~0xfff
+                    n = rng.randrange(1, 4)
+                    pa0 = 0xfe000000 + rng.randrange(0, 0x1000) * 0x1000
+                    if cur + n * 0x1000 >= GB:
+                        break
+                    for i in range(n):
+                        tb.map(base + cur + i * 0x1000, pa0 + i * 0x1000, 1)
+                    img.regions.append(("ioremap-4k", base + cur, base + cur + n * 0x1000 - 1, False))
+                    cur += n * 0x1000
     if f.get("stubs", False) and text is not None:
         # per-CPU stub pages at the end of the 1 GiB Xen image region (Xen 4.6+)
         n = rng.randrange(1, 4)
@@ -613,9 +643,6 @@ def gen_ia32_linux(rng, force=None):
     if rng.random() < 0.3:
         tb.map(0x08048000, rand_ram_page(), 1)
         img.regions.append(("user", 0x08048000, 0x08048fff, False))
-    tb.store(img)
-    img.walk = tb.walk
-    d["npt"] = len(tb.tables)
     # inputs of ia32.c, each present or absent on its own: rootpgt option, cr3, swapper_pg_dir, phys_bits option,
     # vmap_area_list / vmlist and every structure offset they need
     rootsrc = f.get("rootsrc")
@@ -624,14 +651,85 @@ def gen_ia32_linux(rng, force=None):
         rootopt = pick(rng, [None, None, None, None, KPHYS, MACHPHYS, KV])
     else:
         have_sym, have_cr3 = "sym" in rootsrc, "cr3" in rootsrc
-        rootopt = pick(rng, [KPHYS, MACHPHYS, KV]) if rootsrc == "opt" else None
+        rootopt = f.get("rootopt_as", pick(rng, [KPHYS, MACHPHYS, KV])) if "opt" in rootsrc else None
     have_pbits = f.get("phys_bits_opt", rng.random() < 0.3)
+    # ---- the dump was taken in process context: CR3 / the rootpgt option name the root of the crashing user TASK, which shares
+    # the kernel part with swapper_pg_dir and has user mappings of its own.  Non-PAE: a page directory (one page).  PAE: a
+    # 32-byte PDPT from the pgd_cache slab (32-byte aligned, anywhere inside its page; its neighbours in the page are other
+    # tasks' PDPTs, freed ones, or nothing).
+    task = f.get("task", rng.random() < 0.5) and (have_cr3 or rootopt is not None)
+    d["task"] = task
+    wtb = tb
+    task_root = root_pa
+    if task:
+        upool = [18 * MB]
+        def ualloc():
+            p = upool[0]; upool[0] += 0x1000
+            assert p < 19 * MB
+            return p
+        dpool = [19 * MB]
+        def data_page(first64=None):
+            p = dpool[0]; dpool[0] += 0x1000
+            assert p < 20 * MB
+            if first64 is not None:
+                img.wphys32(p, first64 & 0xffffffff); img.wphys32(p + 4, first64 >> 32)
+            return p
+        slab = 17 * MB + rng.randrange(0, 16) * 0x1000
+        slot = f.get("pdpt_slot", pick(rng, [0, 0, 1, 95, 127, rng.randrange(1, 128), rng.randrange(1, 128)])) if pae else 0
+        task_root = slab + 32 * slot
+        d["task_root_off"] = 32 * slot
+        wtb = IA32Tables(pae, ualloc)
+        wtb.tables = tb.tables                       # the kernel part is shared with swapper_pg_dir
+        wtb.root = task_root
+        kslots = [3] if pae else range(768, 1024)
+        wtb.tables[task_root] = {i: tb.tables[root_pa][i] for i in kslots if i in tb.tables[root_pa]}
+        # user mappings: text, heap, stack, a few anywhere; data pages carry arbitrary contents
+        uvas = [0x08048000, 0xbffff000 - rng.randrange(0, 4) * 0x1000, rng.randrange(0x10000, 0xbf000) * 0x1000]
+        look = f.get("lookalike", (not pae) and rng.random() < 0.4)
+        d["lookalike"] = look
+        if look and not pae:
+            # the bytes of a non-PAE hierarchy can parse as a COMPLETE PAE walk of the start of the direct mapping: pgd[6..7] read
+            # as PDPT[3], pte[0..1] of that page table as PD[0], the first 8 bytes of the data page as PT[0]
+            word = (rng.randrange(1, 1 << 20) << 12) | pick(rng, [1, 0x67, 0x25, 0x163]) | (rng.getrandbits(3) << 9)
+            if rng.random() < 0.3:
+                word |= rng.getrandbits(20) << 32
+            wtb.map(0x01800000, data_page(word), 1)
+            img.regions.append(("user-slot6", 0x01800000, 0x01800fff, False))
+            uvas = [v for v in uvas if not (0x01800000 <= v < 0x02000000)]
+        for v in uvas:
+            if wtb.walk(v) is None:
+                wtb.map(v, data_page(rng.getrandbits(64) if rng.random() < 0.7 else None), 1)
+                img.regions.append(("user", v, v + 0xfff, False))
+        if pae:
+            # the rest of the slab page
+            nb = f.get("slab_neighbours", pick(rng, ["none", "stale", "live", "garbage", "stale"]))
+            d["slab_neighbours"] = nb
+            others = [s for s in sorted({0, 1, slot - 1, slot + 1, rng.randrange(128)}) if 0 <= s < 128 and s != slot]
+            for s in (others if nb != "none" else []):
+                a = slab + 32 * s
+                if nb == "live":                   # another task: same kernel part, its own (empty) user part
+                    ents = {3: tb.tables[root_pa][3], 0: ualloc() | 1}
+                elif nb == "stale":                # a freed PDPT: its kernel entry points to a page that has been recycled since
+                    pg = data_page()
+                    for i in range(0, 512, pick(rng, [1, 7])):
+                        img.wphys64(pg + 8 * i, (0x20000000 + i * 0x200000) | 0x1e3)
+                    ents = {3: pg | 1, 0: data_page() | 1}
+                else:
+                    ents = {i: (rng.randrange(1, 1 << 18) << 12) | 1 for i in range(4)}
+                for i, e in ents.items():
+                    img.wphys64(a + 8 * i, e)
+    tb.store(img)
+    if wtb is not tb:
+        img.walk = wtb.walk
+    else:
+        img.walk = tb.walk
+    d["npt"] = len(tb.tables)
     if have_sym:
         img.sym("sym", "swapper_pg_dir", DM + root_pa)
     if have_cr3:
-        img.sym("reg", "cr3", root_pa)
+        img.sym("reg", "cr3", task_root)
     if rootopt is not None:
-        img.opts["rootpgt"] = "%d:%d" % (rootopt, DM + root_pa if rootopt == KV else root_pa)
+        img.opts["rootpgt"] = "%d:%d" % (rootopt, DM + task_root if rootopt == KV else task_root)
     if have_pbits:
         img.opts["phys_bits"] = 52 if pae else 32
     d["rootsrc"] = "+".join(x for x, c in (("opt", rootopt is not None), ("cr3", have_cr3), ("sym", have_sym)) if c) or "none"
